@@ -44,7 +44,7 @@ VARIANTS = {
 X_HORIZON = 4 * 86400
 X_DURS = [1800, 8 * 3600, 24 * 3600, 36 * 3600]
 X_PLACEMENTS = [
-    ("weekend", 3, ["0 9 * * 1-5", "30 23 * * *", "@daily", "0 */6 * * 6,0", "*/5 * * * *"]),
+    ("weekend", 3, ["0 9 * * 1-5", "30 23 * * *", "@daily", "0 */6 * * 6,0"]),
     ("monthend", 29, ["0 0 1 * *", "0 12 31 * *", "@weekly", "15 3 * * 5"]),
     ("leapday", 787, ["0 0 29 2 *", "0 0 1 3 *", "@monthly", "59 23 28 2 *"]),
 ]
